@@ -15,7 +15,7 @@ ASSUMPTIONS = _A + ['soundness of whole parses w.r.t. the declarative context ru
                     'not proved by induction over the parser yet; completeness likewise']
 RULE = ('placement enumeration: 9 leaf constructs (ordinary/you/defeat call, try, preempt, ??, break, continue, nested loop) x every path '
         'of statement wrappers (try body, undo/stop handler, preempt body, while/for/if/else/block) up to depth 2 (thorough 4) x expression '
-        'wrappers (paren, index, call argument, array literal, ?? left/right) up to depth 1 (thorough 2) x three function flavours, plus '
+        'wrappers (paren, index, call argument, array literal, ?? left/right) up to depth 2 x three function flavours, plus '
         'global initialisers; accept/reject of hidc.parser.parse vs the permission table; parse suite on all of them; non-trivial = '
         'placement whose verdict agrees, both verdicts occurring')
 
@@ -66,7 +66,7 @@ def build(flavor, swraps, ewraps, leaf):
 
 
 def run(ctx):
-    sdepth, edepth = ctx.budget((2, 1), (4, 2))
+    sdepth, edepth = ctx.budget((2, 2), (4, 2))
     texts, expect = {}, {}
     n = 0
     for flavor in ('ordinary', 'you', 'defeat'):
